@@ -117,8 +117,26 @@ def work(args):
             X = ('V', G.pt(4))
         elif k in gen.FLATS:
             X = G.flat(k, G.frame(), 'free')
+            if R.random() < 0.25 and k in ('L', 'PL', 'H', 'S'):
+                # through the origin: hashed offsets / foot points are exactly zero there (sign-of-zero code paths)
+                if k == 'PL':
+                    u = cross(X[2], G.dirv(2))
+                    X = ('PL', u if not is0(u) else E.ZERO3, X[2])
+                elif k == 'S':
+                    X = ('S', neg(X[2]) if X[2] != E.ZERO3 else X[1], X[2]) if R.random() < 0.5 else ('S', E.ZERO3, X[2] if X[2] != E.ZERO3 else V(1, 2, 3))
+                else:
+                    X = (k, mul(R.choice([F(0), F(1), F(-2)]), X[2]), X[2])
         elif k == 'G':
-            X = G.shuffled_polygon(G.polygon(3, 7))
+            cyc = G.polygon(3, 7)
+            if R.random() < 0.25:      # carrier plane through the origin
+                n_ = E.polygon_normal(cyc)
+                off = dot(n_, cyc[0])
+                if off != 0:
+                    nn = E.nsq(n_)
+                    t = mul(-off / nn, n_)
+                    if all((c.denominator in (1, 2, 4)) for c in t):
+                        cyc = [add(p, t) for p in cyc]
+            X = G.shuffled_polygon(cyc)
         else:
             X = G.shuffled_body(G.body()[0])
         same = (i % 2 == 0)
